@@ -26,7 +26,7 @@ COMPONENTS = {"real": ["ECAgent.Core._MetaAgent (per-class _components / _tag, a
 PROBES = ["explicit_tag_zero_with_nonzero_default", "tag_set_on_Agent_itself", "class_component_on_environment_class",
           "reject_duplicate_attach", "reject_detach_absent", "instance_component_attached", "subclass_instantiated_after_tag",
           "parent_instantiated_after_child_tag", "child_instantiated_after_parent_tag", "depth_3_chain", "sibling_isolation_checked", "class_created_mid_history", "class_cloned_from_namespace",
-          "shared_namespace_dict", "model_lifecycle_op", "many_classes", "class_level_op_inside_creation_hook", "model_built_mid_history", "classes_sharing_module_and_qualname"]
+          "shared_namespace_dict", "model_lifecycle_op", "many_classes", "class_level_op_inside_creation_hook", "model_built_mid_history", "classes_sharing_module_and_qualname", "diamond_of_environment_and_agent_class"]
 TECHNIQUE = "deterministic simulation: seeded class-level attach/detach/tag histories over generated hierarchies, pristine forked process per history, per-class reference"
 LEVEL_TEXT = ("Seeded search over class hierarchies and class-level histories; after every operation, for every class in the "
               "hierarchy including Agent and Environment, class components, length, membership and default tag must equal a "
@@ -75,6 +75,13 @@ def ns(d):
     d["__init_subclass__"] = classmethod(_creation_hook)
     return d
 BASES = {"Agent": Agent, "Environment": Environment, "SpaceWorld": SpaceWorld}
+
+
+class Grazer(Agent):
+    """A cooperative agent class whose constructor hands an explicit tag up the chain."""
+
+    def __init__(self, id, model, tag=None):
+        super().__init__(id, model, tag=5 if tag is None else tag)
 
 
 def make_species(base):
@@ -139,7 +146,7 @@ def generate(rng, tier):
             ops.insert(at, {"op": "new_model"})
             ops.insert(rng.randint(at + 1, len(ops)), {"op": "touch_models", "step": rng.random() < 0.3})
     many = rng.choice([140, 180, 260]) if rng.random() < (0.04 if tier == "thorough" else 0.015) else 0
-    return {"classes": classes, "ops": ops, "many": many}
+    return {"classes": classes, "ops": ops, "many": many, "diamond": rng.random() < 0.08}
 
 
 def execute(sc, ctx):
@@ -396,4 +403,19 @@ def execute(sc, ctx):
         ctx.state([[len(c) for c in comps], tags, kind])
     deep = any(depth(i) >= 2 for i in range(len(built)) if i not in (idx_agent, idx_env))
     ctx.nontrivial = deep and has_sibling and any(m_ >= {"self", "parent", "child"} for m_ in tagged_sub.values())
+    if sc.get("diamond"):
+        # environments are agents too, also in a diamond: class Pasture(Environment, Grazer) - Environment's constructor must
+        # pass control on along the MRO, so that Grazer's explicit tag reaches Agent and wins over Pasture's default tag
+        ctx.probe("diamond_of_environment_and_agent_class")
+        pasture = ctx.expect_ok("create-diamond", type, "Pasture", (Environment, Grazer), {})
+
+        def retag():
+            pasture.tag = 9
+        ctx.expect_ok("set-default-tag", retag)
+        inst = ctx.expect_ok("instantiate-diamond", pasture, m, "pasture-1")
+        ctx.check(inst.tag == 5, "instance-default-tag",
+                  f"Pasture(Environment, Grazer): Grazer's constructor passes tag=5 explicitly, the instance has tag {inst.tag!r} "
+                  f"(Pasture's default is 9)")
+        ctx.check(Grazer.tag == 0 and Environment.tag == tags[idx_env], "default-tag-visibility",
+                  f"Pasture.tag = 9 leaked: Grazer.tag={Grazer.tag!r} Environment.tag={Environment.tag!r}")
     ctx.sig = shape
